@@ -14,6 +14,7 @@ PROPERTY ForecastKeepsEstimate
 INVARIANT GainSolvesNormalEquations
 INVARIANT RedrawIsTextbookKalman
 INVARIANT NoRedrawIsVariant
+INVARIANT UnitChangeEquivariant
 INVARIANT NoOverflow
 INVARIANT Emit
 INVARIANT EmitOverflow
